@@ -1,5 +1,5 @@
 import PacketVerif.Lemmas.DhcpSrvTieA
-namespace PV.Lemmas.DhcpSrvTie
+namespace PV.Lemmas.DhcpSrvTie.Req
 open PV PV.Model.Dhcp4Srv PV.Model.DhcpSrvGo PV.Lemmas.Dhcp4Srv PV.Gen.DhcpSrv
 
 /-! ### the pieces of the generated `Handler_handleRequest` (same text, named) -/
@@ -424,4 +424,4 @@ theorem handleRequest_tie (cfg : Cfg) (now : Nat) (s : State) (hu : KeysUnique s
     rw [touch_reqModel]
     exact ht
 
-end PV.Lemmas.DhcpSrvTie
+end PV.Lemmas.DhcpSrvTie.Req
